@@ -10,6 +10,7 @@ namespace {
 [[nodiscard]] bool IsStructureDomain(SyntaxTree::Cursor iter);
 [[nodiscard]] bool IsStructureDomain(SyntaxTree::Cursor iter, Index index);
 void MangleRadicals(const std::string& funcName, Typification& type);
+void BindFreeRadicals(Typification::Substitutes& substitutes, const Typification& arg, const Typification& value);
 
 std::string ToString(const ExpressionType& type) noexcept(false) {
   return std::visit(
@@ -73,6 +74,15 @@ void MangleRadicals(const std::string& funcName, Typification& type) {
     return;
   }
   }
+}
+
+void BindFreeRadicals(Typification::Substitutes& substitutes, const Typification& arg, const Typification& value) {
+  const auto bindRadical = [&](const Typification& part) {
+    if (part.IsElement() && IsRadical(part.E().baseID) && !substitutes.contains(part.E().baseID)) {
+      substitutes.insert({ part.E().baseID, value });
+    }
+  };
+  arg.ConstVisit(bindRadical);
 }
 
 } // unnamed namespace
@@ -229,6 +239,8 @@ bool TypeEnv::CompareTemplated(
 
   const auto valueStructure = value.Structure();
   if (valueStructure == rslang::StructureType::basic && value.IsAnyType()) {
+    // Note: nothing is known about the value - parameters that are not deduced yet are instantiated by any type
+    BindFreeRadicals(substitutes, arg, value);
     return true;
   }
   const auto argStructure = arg.Structure();
